@@ -37,6 +37,24 @@ def config_signal_conditioned(names):
     return out
 
 
+def config_condition_closed(names):
+    """the activation condition reads the signal and is switched off by a last sample; the round that finds the
+    condition false still judges the predicate on that sample (checkEventForAuditor: "we're on the ending event"; the
+    model's assumption that a period's closing round belongs to the period, DESIGN 10.3 / known finding C02
+    closing-round-judged), so the period's observations are the word plus the closing sample's truth value"""
+    out = CFG_HEAD
+    for i, n in enumerate(names):
+        out += "  m%d audits only while [a s] < 2\n  m%d expects %s: [a s] == 1 || [a s] == 3\n" % (i, i, n)
+    out += "end\n"
+    return out
+
+
+def events_condition_closed(word, closing_true, after):
+    vals = [1.0 if b else 0.0 for b in word] + [3.0 if closing_true else 2.0] + [5.0] * after
+    return [{"Kind": "sig", "Ts": float(i + 1), "Values": [{"Actor": "a", "Sig": "s", "Typ": 1, "Val": v}]}
+            for i, v in enumerate(vals)]
+
+
 def config_two_periods(names):
     out = CFG_HEAD
     for i, n in enumerate(names):
@@ -187,6 +205,29 @@ def run(tier, seed):
                     rep.ofail.append({"modality": n, "word": wstr(word), "impl_reports": codes, "oracle": o,
                                       "origin": what + " predicate", "config": cfgtext, "events": events_for(word)})
 
+    def judge_closed(word, closing_true, after):
+        """a period closed by its own activation condition, before the end of the play"""
+        if not word:
+            return
+        cfgtext = config_condition_closed(names)
+        evs = events_condition_closed(word, closing_true, after)
+        r = impl.call("audition", Args={"Parse": {"Text": cfgtext}, "Events": evs, "EpochOffset": 1000.0})
+        if r.get("Panicked") or r.get("harnessCrash") or r.get("Err"):
+            rep.violation("audit loop failed on a condition-closed period", {"word": wstr(word), "result": r}, tags={"kind": "crash"})
+            return
+        reps = reports_by_auditor(r["Events"])
+        full = list(word) + [closing_true]
+        for i, n in enumerate(names):
+            codes = ",".join(reps.get("m%d" % i, [])) or "-"
+            rep.case((n, "condition-closed", wstr(full), after))
+            rep.count("condition-closed")
+            o = model.ask("C01 oracle %s %s %s" % (hexn[n], wstr(full), codes))
+            if o != "ok":
+                rep.count("O-fail")
+                rep.ofail.append({"modality": n, "word": wstr(full), "impl_reports": codes, "oracle": o,
+                                  "origin": "period closed by its activation condition; the closing sample is the last observation",
+                                  "config": cfgtext, "events": evs})
+
     def judge_pair(w1, w2):
         """two activation periods of the same auditors: each period is judged on its own words"""
         from . import audgen
@@ -233,6 +274,9 @@ def run(tier, seed):
         judge_word(word, "exhaustive<=%d" % maxlen)
     for word in all_words(6 if tier == "quick" else 9):
         judge_signal_only(word)
+    for word in all_words(4 if tier == "quick" else 7):
+        judge_closed(word, True, len(word) % 2)
+        judge_closed(word, False, (len(word) + 1) % 2)
     rng = SplitMix(seed)
     short = all_words(3 if tier == "quick" else 4)
     for w1 in short:
